@@ -71,7 +71,7 @@ from mc.clients import Client, H2Client, h1_request, h2_request_headers, ws_h1_h
 from mc.core import ScriptApp
 from mc.explore import V, bfs
 from mc.harness import describe, norm_headers, run_world
-from mc.x_c12_ref import CTL, HttpRef, WsRef
+from mc.x_c12_ref import HttpRef, WsRef
 
 ID = "C12"
 LEVEL = "model_checking"
